@@ -2,6 +2,7 @@ import EdpVerif.Generated.MiscC19
 import EdpVerif.Lemmas.Rpc
 import EdpVerif.Lemmas.RpcMore
 import EdpVerif.Impl.RpcTerm
+import EdpVerif.Generated.MiscC17pid
 /-!
 # C17 — each remote call gets its own reply; nothing is left behind afterwards
 
@@ -717,5 +718,28 @@ the model's table by the triple loses nothing (and two calls share an entry only
 theorem C17_key_text_injective (p q : Pid) (h : keyText p = keyText q) : p = q := keyText_inj h
 
 example : keyText ⟨12, 0, 345⟩ = "12.0.345" := by decide
+
+end Edp.Props.C17
+
+namespace Edp.Props.C17
+open Edp Edp.Impl Edp.Impl.Rpc
+
+/-! ## where a call's reply pid comes from -/
+
+/-- The model's `begin` step draws the reply pid of a call from the node's allocator, once per call, and from nowhere
+else.  Regenerated from node.rs: `reply_to_pid` is bound exactly once, to `self.pid_allocator.allocate().expect(_)`; the
+function touches no other part of the node than the allocator, the table of outstanding calls and the table of
+connections; and the node has no field besides the eleven the models of C16–C19 know (a pool or cache of reply pids — a
+later call picking up the pid of an answered one, whose late duplicate reply it would then take for its own — is a new
+field, another initializer, or another `self.` access). -/
+theorem C17_reply_pid_is_one_fresh_allocation_per_call :
+    Gen.RPC_REPLY_PID_INIT = "self.pid_allocator.allocate().expect(_)" ∧
+    Gen.RPC_SELF_FIELDS = ["pid_allocator", "pending_rpcs", "connections"] ∧
+    Gen.NODE_FIELDS = ["name", "cookie", "creation", "pid_allocator", "reference_counter", "registry", "connections",
+      "pending_rpcs", "started", "listen_port", "hidden"] ∧
+    (Gen.RPC_CALL_STEPS.filter (· == "allocate")).length = 1 := by
+  decide
+
+example : Gen.RPC_CALL_STEPS.head? = some "allocate" := by decide
 
 end Edp.Props.C17
